@@ -98,18 +98,19 @@ def rnd_path(rng, ext, k):
     return "%s/src/%s%d/%s.%s" % (tmp, pkg, k, name, ext[1])
 
 
-def synth(rng, lang):
+def synth(rng, lang, heavy_words=None):
     """Returns (output text, ground truth [(file, nerrors)], crash expected?, messages per file)."""
     ext = {"java": ("java", "java"), "kotlin": ("kotlin", "kt"), "groovy": ("groovy", "groovy"),
            "scala": ("scala", "scala")}[lang]
-    nfiles = rng.randint(1, 8)
+    heavy = heavy_words is not None     # many diagnostics of few kinds: a filter pattern then matches 9 times and more
+    nfiles = rng.randint(5, 12) if heavy else rng.randint(1, 8)
     files = [rnd_path(rng, ext, k) for k in range(nfiles)]
     truth = {}
     blocks = []
     for f in files:
-        nerr = rng.choice([0, 0, 1, 1, 2, 3])
+        nerr = rng.choice([1, 2, 3, 4]) if heavy else rng.choice([0, 0, 1, 1, 2, 3])
         for _ in range(nerr):
-            msg = rng.choice(WORDS) + " " + rng.choice(["x", "String vs Int", "T1", "A<B>"])
+            msg = rng.choice(heavy_words if heavy else WORDS) + " " + rng.choice(["x", "String vs Int", "T1", "A<B>"])
             if rng.random() < 0.1:
                 # compilers print fully qualified names in diagnostics
                 msg += {"java": ": java.lang.String cannot be converted to int", "kotlin": " of org.jetbrains.annotations.NotNull",
@@ -257,11 +258,12 @@ def run(tier, seed, replay=None):
         e2e.append((d["lang"], d["text"], d.get("filters", []), d.get("truth", {}), d.get("crash", False)))
     for i in range(nout):
         lang = ["java", "kotlin", "groovy", "scala"][i % 4]
-        text, truth, crash = synth(rng, lang)
+        hw = rng.sample(WORDS[:8], 2) if (lang in ("java", "kotlin") and rng.random() < 0.1) else None
+        text, truth, crash = synth(rng, lang, hw)
         filters = []
-        if rng.random() < 0.2 and truth:
+        if (hw or rng.random() < 0.2) and truth:
             # 1-3 user filter patterns, each disregarding one kind of message
-            ws = rng.sample([w.split()[0] for w in WORDS], rng.randint(1, 3))
+            ws = [w.split()[0] for w in hw][:rng.randint(1, 2)] if hw else rng.sample([w.split()[0] for w in WORDS], rng.randint(1, 3))
             filters = {"java": [r"[a-zA-Z0-9/_]+\.java:\d+: error: %s.*" % w for w in ws],
                        "kotlin": [r"[a-zA-Z0-9/_]+\.kt:\d+:\d+: error: %s.*" % w for w in ws],
                        "groovy": [], "scala": []}[lang]
